@@ -400,6 +400,9 @@ func finish(a, wa *agg, witnessed, findings []*Finding, ck check, o DriverOpts, 
 			fmt.Printf("KNOWN-FINDING: property=%s %s [sig=%s; seen %d times in this run%s]\n", o.ID, f.What, f.Signature,
 				knownSeen[f], map[bool]string{true: "; stored witness still fails", false: ""}[witnessHit[f]])
 		} else {
+			// every listed open finding gets its KNOWN-FINDING line; the NOTE tells
+			// that this run did not meet it (schedule- or seed-dependent findings)
+			fmt.Printf("KNOWN-FINDING: property=%s %s [sig=%s; not re-observed in this run]\n", o.ID, f.What, f.Signature)
 			fmt.Printf("NOTE: listed finding not re-observed in this run (sig=%s)\n", f.Signature)
 		}
 	}
